@@ -257,7 +257,10 @@ def applyReq (t : TState) (c : Cmd) : Option TState :=
   let name := lower c.name
   if name = b!"select" then
     match c.args with
-    | [.b n] => (decToNat? n).map (fun d => { t with cur := (d : Int) })
+    | [.b n] =>
+      match decToNat? n with
+      | some d => some { t with cur := Int.ofNat d }
+      | none => none
     | _ => none
   else if name = b!"script" ∨ name = b!"function" then some t
   else (applyXCmd (t.dbs t.cur) c).map (fun ks => t.setDb t.cur ks)
